@@ -19,7 +19,15 @@ recursion over the node objects' fields (sharing is irrelevant to value).  Value
 three assignments of integers to the literal leaves (so that both sides of comparisons are taken).
 A third evaluator over the abstract term guards the harness itself (disagreement there raises).
 
-Thorough tier adds the aggregation sub-grammar: queries of Table.aggregate and scans in
+A targeted family covers what the size bounds cannot reach: 14 skeletons of nested binders (map in map, fold in
+map, map in fold, let around map / fold, let in map, filter in map, map in filter, fold in fold, let in let, a map
+under an If inside a map, depth 3 chains), every innermost body of 4-5 nodes that shares a node over variables
+bound at DIFFERENT depths.  Because the renderer iterates Python sets of variable names, each build is repeated
+under several variable-name assignments until the shared node's free-variable set has been iterated both with the
+deepest variable last and with a shallower one last (counted in the evidence), so the verdict does not depend on
+string hashing.
+
+Both tiers also cover the aggregation sub-grammar: queries of Table.aggregate and scans in
 Table.annotate over range_table(3) with hl.agg/scan.max and hl.agg/scan.filter, where sub-DAGs are
 shared between aggregated arguments, between an aggregated argument and the result context, etc.
 """
@@ -732,7 +740,10 @@ def _selfcheck():
 
 def replay(obj):
     term = _fromjson(obj['term'])
-    vs, info = run_case(term, obj.get('agg'), modes=(obj['mode'],), salts=(obj.get('salt', 0),))
+    # the recorded variable-name assignment first; the others too, since which assignment exposes a name-order-dependent
+    # defect depends on the interpreter's string hashing
+    first = obj.get('salt', 0)
+    vs, info = run_case(term, obj.get('agg'), modes=(obj['mode'],), salts=(first,) + tuple(x for x in NEST_SALTS if x != first))
     if vs:
         return False, f'{vs[0][0]}: {vs[0][1]}; text={info["texts"].get(obj["mode"])}'
     return True, 'no violation'
